@@ -48,7 +48,7 @@ Record case := mk_case {
                                                   (primaryKey tag, else the field named ID) *)
   c_prio : string; c_prio_hasdef : bool;       (* PrioritizedPrimaryField *)
   (* the call *)
-  c_ret : bool; c_op : op; c_base : Z; c_now : Z;
+  c_ret : bool; c_rev : bool (* LastInsertIDReversed *); c_op : op; c_base : Z; c_now : Z;
   c_before : list (list goval);
   (* leaves of the Go struct (walked by the harness) that own no column in the parsed schema,
      with the values the records held for them: normally none *)
@@ -76,7 +76,7 @@ Definition model_agrees (c : case) : bool :=
   let n := Z.of_nat (length (c_before c)) in
   all2 (fun a b => String.eqb (fst a) (fst b) && list_eqb String.eqb (snd a) (snd b)) (dbnames (c_tree c)) (c_dbnames c)
   && all2 (fun a f => String.eqb (fst a) (fd_col f) && list_eqb String.eqb (snd a) (fd_path f)) (c_dbnames c) fs
-  && match create fs (c_now c) (c_ret c) true (c_prio c) (c_prio_hasdef c) (c_op c) (c_base c) (c_before c) with
+  && match create fs (c_now c) (c_ret c) (c_rev c) (c_prio c) (c_prio_hasdef c) (c_op c) (c_base c) (c_before c) with
      | None => o_err c && (o_rowcount c =? 0)
      | Some (after, rows, m) =>
          negb (o_err c)
@@ -163,7 +163,7 @@ Definition model_parts (c : case) : list bool :=
   let n := Z.of_nat (length (c_before c)) in
   [ all2 (fun a b => String.eqb (fst a) (fst b) && list_eqb String.eqb (snd a) (snd b)) (dbnames (c_tree c)) (c_dbnames c);
     all2 (fun a f => String.eqb (fst a) (fd_col f) && list_eqb String.eqb (snd a) (fd_path f)) (c_dbnames c) fs ] ++
-  match create fs (c_now c) (c_ret c) true (c_prio c) (c_prio_hasdef c) (c_op c) (c_base c) (c_before c) with
+  match create fs (c_now c) (c_ret c) (c_rev c) (c_prio c) (c_prio_hasdef c) (c_op c) (c_base c) (c_before c) with
   | None => [false; o_err c; (o_rowcount c =? 0)]
   | Some (after, rows, m) =>
       [ true; negb (o_err c); all2 (rec_eqb fs) after (o_after c); all2 row_eqb rows (o_rows c);
